@@ -26,7 +26,7 @@ LEVEL_TEXT = (
 LEVEL_NOTE = "Trusted: typing rules of tdomain.py; random.split returns independent keys; random.normal(key, shape) is a standard-normal draw."
 
 
-def run(chk, S: Session):
+def _run_own(chk, S: Session):
     chk.trust("typing rules of tdomain.py", "random.split / random.normal")
     r1 = chk.rule("R-C13-1", "MarkovSequence.sample: first draw from the marginal, inductive scan, consistent stacking, key discipline, shape recursion", floor=12)
     r2 = chk.rule("R-C13-2", "sample_flat = mean + L * base for every factorisation; sample_tree unflattens its own flat sample", floor=9)
@@ -214,3 +214,11 @@ def prior_grid_rules(chk, S):
 
 
 EST_ = "probdiffeq/_probdiffeq/estimators_and_losses.py"
+
+
+def run(chk, S: Session):
+    _run_own(chk, S)
+    from ..harness import borrow
+
+    rb = chk.rule("R-C13-B", "clause of this statement decided by rules of C08 (applying a backward conditional to a sample is the exact affine map)", floor=6)
+    borrow(chk, S, rb, "C08", lambda r, c: (r in ("R-C08-1", "R-C08-4")) and "apply_flat" in c)
